@@ -3,9 +3,9 @@
 package adapter
 
 import (
-	"errors"
 	"fmt"
 	"net"
+	"os"
 	"runtime"
 	"sync"
 	"time"
@@ -45,7 +45,9 @@ type MemDriver struct {
 	// in-memory listener reports 'done' only when no callback is in progress
 }
 
-var ErrTimeout = errors.New("i/o timeout (scripted)")
+// ErrTimeout is what the real driver's read returns when the deadline passes: a net.OpError that wraps os.ErrDeadlineExceeded
+// and reports Timeout() == true.
+var ErrTimeout error = &net.OpError{Op: "read", Net: "udp", Err: os.ErrDeadlineExceeded}
 
 func (d *MemDriver) record(method string, addr fmt.Stringer, request []byte) Invocation {
 	inv := Invocation{Method: method, Addr: addr.String(), Request: append([]byte{}, request...)}
